@@ -11,7 +11,10 @@ from vmon.oracles import o2d
 ID = "C13"
 LEVEL = "fault_enumeration"
 CONFIGS = ["highs", "cbc", "none"]
-BEHAVIOURS = ["ok", "raise", "notsolved", "infeasible", "unbounded", "undefined"]
+# ok-sparse: an optimal answer whose zero-valued variables are left unset or carry 1e-12 noise (solution files that
+# list non-zero columns only); notsolved-incumbent: "not solved" with a feasible, non-optimal incumbent loaded and the
+# solution status saying "integer feasible" (a run stopped by a limit)
+BEHAVIOURS = ["ok", "raise", "notsolved", "infeasible", "unbounded", "undefined", "ok-sparse", "notsolved-incumbent"]
 ENTRIES = ["getter", "convert"]
 RULE = (
     "the matrix {HiGHS-stub, CBC} x {ok, raises PulpSolverError, status NotSolved/Infeasible/Unbounded/Undefined} plus the "
@@ -137,6 +140,22 @@ class _Inject:
             status = real_solver_factory().actualSolve(lp, **kw)
             if inj.beh == "ok":
                 return status
+            if inj.beh == "ok-sparse":
+                for k, v in enumerate(lp.variables()):
+                    if v.varValue is not None and abs(v.varValue) < 0.5:
+                        v.varValue = None if k % 2 else 1e-12
+                return status
+            if inj.beh == "notsolved-incumbent":
+                # swap the two lowest orders of every region: still a proper assignment, no longer the optimal one
+                by = {v.name: v for v in lp.variables()}
+                for name, v in list(by.items()):
+                    parts = name.split("_")
+                    if len(parts) == 3 and parts[0] == "x" and parts[2] == "0" and f"x_{parts[1]}_1" in by:
+                        w = by[f"x_{parts[1]}_1"]
+                        v.varValue, w.varValue = w.varValue, v.varValue
+                lp.assignStatus(pulp.LpStatusNotSolved)
+                lp.sol_status = pulp.LpSolutionIntegerFeasible
+                return pulp.LpStatusNotSolved
             code = {
                 "notsolved": pulp.LpStatusNotSolved,
                 "infeasible": pulp.LpStatusInfeasible,
@@ -206,7 +225,7 @@ def run_case(case, rec):
     cfg, beh, entry = case["config"], case["behaviour"], case["entry"]
     b = mon2d.make_bpseq(n, pairs)
     f = mon2d.facts(mon2d.snapshot(b))
-    faulty = beh != "ok" or cfg == "none"
+    faulty = beh not in ("ok", "ok-sparse") or cfg == "none"
     rec.mark_nontrivial(f["knotted"] and faulty)
     cell = f"{cfg}/{beh}/{entry}"
     det = lambda extra=None: {"n": n, "pairs": pairs, "cell": cell, "info": extra}
